@@ -178,7 +178,7 @@ def check_dual(leaf):
 
     viol, runs = [], 0
     hist, nchain = leaf["hist"], leaf["cfg"]["nchain"]
-    for mu in (math.log(0.7), 0.3):
+    for mu in (math.log(0.7), 0.3, 0.0):
         for red_name, red in (("arithmetic", mici.adapters.arithmetic_mean_log_step_size_reducer),
                               ("geometric", mici.adapters.geometric_mean_log_step_size_reducer),
                               ("min", mici.adapters.min_log_step_size_reducer)):
@@ -318,8 +318,12 @@ def check_initialize_sequence(search_leaves):
             if a["search"]["exp"] != b["search"]["exp"]:
                 pairs.append((a, b))
     step = max(1, len(pairs) // 40)
-    for a, b in pairs[::step]:
-        adapter = mici.adapters.DualAveragingStepSizeAdapter(max_init_step_size_iters=a["cfg"]["maxprobes"])
+    # the documented default (None) and explicit targets, among them 0.0 (= regularise towards step size 1)
+    targets = [None, 0.0, -1.5, 0.5]
+    for pi, (a, b) in enumerate(pairs[::step]):
+        target = targets[pi % len(targets)] if pi >= 4 else targets[pi]
+        adapter = mici.adapters.DualAveragingStepSizeAdapter(max_init_step_size_iters=a["cfg"]["maxprobes"],
+                                                             log_step_size_reg_target=target)
         runs += 1
         for which, leaf in (("first", a), ("second", b)):
             hist = leaf["hist"]
@@ -345,11 +349,12 @@ def check_initialize_sequence(search_leaves):
             trans = _Trans()
             trans.system, trans.integrator = Sys(), Integ()
             st = adapter.initialize(ChainState(pos=np.zeros(2), mom=np.zeros(2), dir=1), trans)
-            want = math.log(10 * 2.0 ** leaf["search"]["exp"])
+            want = math.log(10 * 2.0 ** leaf["search"]["exp"]) if target is None else target
             if not math.isclose(st["log_step_size_reg_target"], want, rel_tol=1e-12, abs_tol=1e-12):
-                viol.append(("C17:dual:initialize:regularisation-target",
-                             f"one DualAveragingStepSizeAdapter initialised twice (probe classes {a['hist']} then {b['hist']}): the {which} "
-                             f"adapter state has log_step_size_reg_target {st['log_step_size_reg_target']} but log(10 * initial step size) = {want}",
+                viol.append(("C17:dual:initialize:regularisation-target" + ("" if target is None else ":explicit"),
+                             f"one DualAveragingStepSizeAdapter(log_step_size_reg_target={target}) initialised twice (probe classes {a['hist']} then "
+                             f"{b['hist']}): the {which} adapter state has log_step_size_reg_target {st['log_step_size_reg_target']} but "
+                             + ("log(10 * initial step size)" if target is None else "the requested target is") + f" {want}",
                              {"engine": "adapters-init-seq", "first": a["hist"], "second": b["hist"]}))
                 break
             if st["iter"] != 0 or st["smoothed_log_step_size"] != 0.0 or st["adapt_stat_error"] != 0.0:
